@@ -213,10 +213,15 @@ def analyse(fn, root: Path, tier: str = "quick", overlay=None, seed=0):
         report: Report = fn(ctx)
         for what, got, minimum in report.floors:
             if got < minimum:
-                raise AnalysisError(
+                msg = (
                     f"floor missed for {what}: matched {got}, confirmed by hand {minimum} — "
                     "an anchor moved or a rule went vacuous"
                 )
+                # a refutation names a concrete construct and stands on its own; a missed floor
+                # alone (nothing refuted) must never look like a pass
+                if not report.findings:
+                    raise AnalysisError(msg)
+                report.note(msg)
         return report, None
     except AnalysisError as e:
         return None, str(e)
